@@ -368,6 +368,8 @@ func (r *transport) handleCacheHit(
 				urlKey,
 				freshness,
 				ccReq,
+				refs,
+				refIndex,
 				isRespNoCacheQualified,
 				respNoCacheFieldsSeq,
 			)
@@ -430,6 +432,8 @@ func (r *transport) handleStaleWhileRevalidate(
 	urlKey string,
 	freshness *internal.Freshness,
 	ccReq internal.CCRequestDirectives,
+	refs internal.ResponseRefs,
+	refIndex int,
 	noCacheQualified bool,
 	noCacheFieldsSeq iter.Seq[string],
 ) (*http.Response, error) {
@@ -443,7 +447,7 @@ func (r *transport) handleStaleWhileRevalidate(
 	// guaranteed completion.
 	// The caller owns the response that is returned below; the background goroutine gets
 	// only the entry's id and reads its own copy from the store.
-	go r.backgroundRevalidate(req2, stored.ID, urlKey, freshness, ccReq)
+	go r.backgroundRevalidate(req2, stored.ID, urlKey, freshness, ccReq, refs, refIndex)
 	if noCacheQualified {
 		// Qualified no-cache: the nominated fields must not be replayed without validation
 		for field := range noCacheFieldsSeq {
@@ -468,6 +472,8 @@ func (r *transport) backgroundRevalidate(
 	urlKey string,
 	freshness *internal.Freshness,
 	ccReq internal.CCRequestDirectives,
+	refs internal.ResponseRefs,
+	refIndex int,
 ) {
 	ctx, cancel := context.WithTimeout(req.Context(), r.swrTimeout)
 	defer cancel()
@@ -499,6 +505,8 @@ func (r *transport) backgroundRevalidate(
 			End:       end,
 			CCReq:     ccReq,
 			Stored:    stored,
+			Refs:      refs,
+			RefIndex:  refIndex,
 			Freshness: freshness,
 		}
 		//nolint:bodyclose // The response is not used, so we don't need to close it.
